@@ -80,6 +80,8 @@ Rows ==
   \cup {One("EvalSha", [sha |-> "0123abcd", ks |-> kk, ss |-> vv], <<"evalsha", "0123abcd", S(Len(kk))>> \o kk \o vv) : kk \in KS, vv \in V2}
   \cup {One("ScriptLoad", [script |-> "return 1"], <<"script", "load", "return 1">>)}
   \cup {One("Ping", [z |-> 0], <<"ping">>)}
+  \* Pipelined(fn) with fn = {Set(k, s); Get(k)}: the queued commands, in order, nothing else
+  \cup {Row("Pipelined", [k |-> k, s |-> "va"], <<<<"set", k, "va">>, <<"get", k>>>>) : k \in K}
   \cup {One("Keys", [s |-> "p*"], <<"keys", "p*">>)}
   \cup {One("Scan", [x |-> p[1], s |-> "p*", y |-> p[2]], <<"scan", S(p[1]), "match", "p*", "count", S(p[2])>>) : p \in P2}
   \cup {One(t[1], [k |-> "ka", x |-> p[1], s |-> "p*", y |-> p[2]], <<t[2], "ka", S(p[1]), "match", "p*", "count", S(p[2])>>) :
